@@ -3,4 +3,17 @@ package main
 import "github.com/theparanoids/ysshra/internal/verifharness/hx"
 
 // registerMore is extended by further op families of this group.
-func registerMore(g *hx.Gen, out *hx.Out) {}
+func registerMore(g *hx.Gen, out *hx.Out) {
+	if hx.Want("msg") {
+		genMsg(g, out)
+	}
+	if hx.Want("param") {
+		genParam(g, out)
+	}
+}
+
+func init() {
+	ops["msg.dec"] = runMsgDec
+	ops["msg.enc"] = runMsgEnc
+	ops["param.new"] = runParamNew
+}
